@@ -272,7 +272,7 @@ def pfunc(f: Func, ind: int = 0, method: bool = False) -> list[str]:
 	out = []
 	if f.decor:
 		out.append(f'{t}@{f.decor}')
-	ret = f"'{f.ret}'" if f.decor == 'classmethod' and f.ret[:1].isupper() else f.ret
+	ret = f"'{f.ret}'" if method and f.ret[:1].isupper() and f.ret != 'None' else f.ret
 	out.append(f"{t}def {f.name}({', '.join(params)}) -> {ret}:")
 	out.extend(ps(f.body, ind + 1))
 	return out
@@ -1114,6 +1114,17 @@ class Gen:
 			v = Var(name, cls.name, cls=cls)
 			v.room = ROOM
 			self.count('new:object')
+			dups = [m for m in cls.methods if getattr(m, 'chain', False)]
+			if dups and r.random() < 0.5:
+				for _ in range(r.choice([1, 1, 2])):
+					m = r.choice(dups)
+					e = E('meth', cls.name, [e, *[self.lit_int(plo, min(phi, 9)) for _, _, plo, phi in m.params]], val=m.name)
+				self.count('new:call-chain')
+				if r.random() < 0.5:
+					body.append(S('anno', name, e, v.ty))
+					env.vars[name] = v
+					env.locals_only.add(name)
+					return v
 		if ty in ('int', 'bool', 'str', 'float') and r.random() < 0.15:
 			body.append(S('anno', name, e, v.ty))
 		else:
@@ -1650,6 +1661,15 @@ class Gen:
 			mk.decor = 'classmethod'
 			self.count('method:classmethod')
 			cls.methods.append(mk)
+		if r.random() < 0.35:
+			# a method returning a new instance of its own class: makes `C(..).dup(..)` call chains on constructor results possible
+			# (dbbf835: only a whole-value constructor call may be emitted as the initializer `C x{..}`)
+			mp = [(self.fresh('a'), 'int', 0, 50)] if r.random() < 0.6 else []
+			args = [E('var', 'int', val=mp[0][0], lo=0, hi=50) if i == 0 and mp else self.lit_int(0, 9) for i, _ in enumerate(params)]
+			dup = Func(self.fresh('dup'), mp, name, [S('return', E('new', name, args, val=name))])
+			dup.chain = True  # type: ignore[attr-defined]
+			self.count('method:returns-own-class')
+			cls.methods.append(dup)
 		return cls
 
 	def gen_enum(self) -> None:
